@@ -1269,7 +1269,7 @@ func runFaults(c *engine.Ctx) engine.Result {
 			continue
 		}
 		for p := 1; p <= g.n; p++ {
-			for _, k := range recstore.FaultKinds {
+			for _, k := range append(append([]string{}, recstore.FaultKinds...), recstore.FaultDuplicate) {
 				cs := g.cs
 				cs.Pos, cs.Kind = p, k
 				cases = append(cases, cs)
